@@ -8,7 +8,7 @@ from . import sut
 # ------------------------------------------------------------------ value lists for partitioning
 
 PROFILES = ["tiny", "small", "medium", "large", "huge", "all-equal", "two-valued", "one-dominant", "planted",
-            "arithmetic", "mirrored"]
+            "arithmetic", "mirrored", "near-equal-large"]
 
 
 MASK64 = (1 << 64) - 1
@@ -104,6 +104,11 @@ def values_lists(draw, min_len=1, max_len=10, numbins=None, profiles=None, max_v
         big = draw(int_lists(nbig, 6, 40))
         small = draw(st.lists(st.integers(1, 3), min_size=max(0, n - nbig), max_size=max(0, n - nbig)))
         vals = draw(st.permutations(big + small))
+    elif profile == "near-equal-large":
+        # big values that differ by little (relative differences of 1e-5 .. 1e-11): a tolerance, a float32 or a rounding shows here
+        base = draw(st.sampled_from([10 ** 6, 2 ** 24, 10 ** 9, 2 ** 40]))
+        seed = draw(st.integers(0, 2 ** 40))
+        vals = [base * m + d for m, d in zip(splitmix(seed, min(n, 64), 1, 4), splitmix(seed + 1, min(n, 64), 0, 50))]
     elif profile == "mirrored":
         # every value twice (or four times): the two halves of the natural top-level split are value-identical, so sub-problems repeat
         reps = 2 if n < 8 or draw(st.booleans()) else 4
